@@ -810,7 +810,7 @@ func main() {
 		"A call that stays pending after its stream failed is NOT a violation (the property only promises a return by the call's own time-out / cancellation / Close, which keep their own must-return rules; an asynchronous call never completed even by Close is a violation): it is counted under coverage.observations with the shortest sequence, as is the entry it leaves in the in-flight table. A stream failure must still not fail calls of other streams, and an answered call must return (own violation keys spurious-return/..., stuck/.../after-A).",
 		"A livelock is reported only on positive evidence that does not depend on time: in 40 consecutive scheduler passes the client's no-available-connection counter moved and stack snapshots show the send loop as the only goroutine that is not blocked.",
 		"Healthy-store oracle: a violation is claimed only where the environment withheld nothing - client open, no armed send failure, every needed stream alive, every request the server received answered (drain), the send loop woken by a submission / probe after the slot was free, and unbounded virtual time (the time-outs of waiting calls are never fired by the epilogue; a T event of the enumeration is a legitimate time-out and is judged by the time-out rule only). Free slots are computed from the server's table, never from the client's counters. NOT judged (observation queued_behind_limit_until_next_submission): the unchanged client re-examines calls queued behind max-concurrency-request-limit only when a new submission wakes the send loop - an answer that frees a slot does not; such a call waits for the next submission or its own time-out (an asynchronous one for ever if no further call to that store is made). Executions in which a stream failed after the stream of the other kind of its connection had failed (known unclaimed entry leak, findings/C18-candidate-fixes.diff item 1) are not judged by this oracle from that point on. With 2 connections and a finite limit only call-never-returns and slot-accounting are evaluated (which connection a call is queued for is not observable).",
-		"Part C: the store below the collapse layer is scripted (it parks every request and echoes it in the response), so the collapse layer is explored on its own, not stacked on the batch client of parts A/B; its time-out timer is virtual (vtime rewrite of client_collapse.go). Sharing a flight is never demanded, only wrong sharing is judged: a submission that makes no request arrive at the store must be a region-level ResolveLock with an identical request pending. Requests that differ only in the commit version (one pair in the grid) are outside the judged domain - a transaction has one fate - and are reported as observation requests_differing_only_in_commit_version_share_a_flight. The store address and the region epoch / peer of the request context are fixed. Events are separated by quiescence (level 1), so two submissions never race inside singleflight.",
+		"Part C: the store below the collapse layer is scripted (it parks every request and echoes it in the response), so the collapse layer is explored on its own, not stacked on the batch client of parts A/B; its time-out timer is virtual (vtime rewrite of client_collapse.go). Sharing a flight is never demanded, only wrong sharing is judged: a submission that makes no request arrive at the store must have an identical request pending there (whatever its kind). Requests that differ only in the commit version (one pair in the grid) are outside the judged domain - a transaction has one fate - and are reported as observation requests_differing_only_in_commit_version_share_a_flight. The store address and the region epoch / peer of the request context are fixed. Events are separated by quiescence (level 1), so two submissions never race inside singleflight.",
 		"Batch policy 'basic' (no time based batch waiting); the server never answers on a stream of another connection or kind; stream drops do not break the connection; errors of waitConnReady (dial budget) count as connection failures.",
 	})
 }
